@@ -39,6 +39,7 @@ func init() {
 		v + "Assume":  func(fr *frame, a []value) value { E.Assume(toSym(a[0], 0)); return nil },
 		v + "Assert":  rtAssert,
 		v + "Note":    func(fr *frame, a []value) value { return nil },
+		v + "Interleave": rtInterleave,
 		v + "StepBudget": func(fr *frame, a []value) value {
 			n := asInt64(a[0])
 			if n <= 0 {
@@ -86,7 +87,7 @@ func init() {
 			return tuple{writeTo(fr, a[0], s), iface{}}
 		},
 		// sync/atomic on concrete cells: plain read-modify-write (one logical thread; no pre-emption is modelled)
-		"sync/atomic.AddInt64":  func(fr *frame, a []value) value { c := a[0].(*value); n := asInt64(*c) + asInt64(a[1]); *c = n; return n },
+		"sync/atomic.AddInt64":  func(fr *frame, a []value) value { syncPoint("atomic", nil); c := a[0].(*value); n := asInt64(*c) + asInt64(a[1]); *c = n; return n },
 		"sync/atomic.AddInt32":  func(fr *frame, a []value) value { c := a[0].(*value); n := int32(asInt64(*c) + asInt64(a[1])); *c = n; return n },
 		"sync/atomic.AddUint64": func(fr *frame, a []value) value { c := a[0].(*value); n := uint64(asInt64(*c) + asInt64(a[1])); *c = n; return n },
 		"sync/atomic.AddUint32": func(fr *frame, a []value) value { c := a[0].(*value); n := uint32(asInt64(*c) + asInt64(a[1])); *c = n; return n },
@@ -212,13 +213,13 @@ func init() {
 		"regexp.MustCompile": func(fr *frame, a []value) value { return opaque{"regexp"} },
 		"regexp.Compile":     func(fr *frame, a []value) value { return tuple{opaque{"regexp"}, iface{}} },
 
-		"(*sync.Mutex).Lock":      nop,
-		"(*sync.Mutex).Unlock":    nop,
+		"(*sync.Mutex).Lock":      func(fr *frame, a []value) value { syncPoint("lock", a[0].(*value)); return nil },
+		"(*sync.Mutex).Unlock":    func(fr *frame, a []value) value { syncPoint("unlock", a[0].(*value)); return nil },
 		"(*sync.Mutex).TryLock":   func(fr *frame, a []value) value { return true },
-		"(*sync.RWMutex).Lock":    nop,
-		"(*sync.RWMutex).Unlock":  nop,
-		"(*sync.RWMutex).RLock":   nop,
-		"(*sync.RWMutex).RUnlock": nop,
+		"(*sync.RWMutex).Lock":    func(fr *frame, a []value) value { syncPoint("lock", a[0].(*value)); return nil },
+		"(*sync.RWMutex).Unlock":  func(fr *frame, a []value) value { syncPoint("unlock", a[0].(*value)); return nil },
+		"(*sync.RWMutex).RLock":   func(fr *frame, a []value) value { syncPoint("rlock", a[0].(*value)); return nil },
+		"(*sync.RWMutex).RUnlock": func(fr *frame, a []value) value { syncPoint("runlock", a[0].(*value)); return nil },
 		"(*sync.Once).Do":         onceDo,
 		"sort.Slice":              sortSliceUnstable,
 		"sort.SliceStable":        sortSlice,
